@@ -6,6 +6,7 @@ CONSTANTS
   CharsM = {1, 2}
   MaxPat = 2
   MaxFld = 2
+  M_DoIfDecidesAlone = TRUE
   D_AndRegexp = TRUE
 INVARIANTS TypeOK ImplMatchesDecl
 CHECK_DEADLOCK FALSE
